@@ -133,8 +133,9 @@ class IdTable:
 # --------------------------------------------------------------------------
 
 class Problem:
-    """log L: isotropic Gaussian of width `width` at `center`;
-    log pi: non-constant (Gaussian, sd 3) inside the box [-lim, lim]^d, -inf outside."""
+    """log L: axis-aligned Gaussian, column i has centre `center` + 0.25 i and width `width` (1 + 0.5 i);
+    log pi: non-constant (Gaussian, sd 3 + 0.75 i) inside the box [-lim, lim]^d, -inf outside.
+    Neither is symmetric under a permutation of the coordinates (a column mix-up must show)."""
 
     def __init__(self, dims=2, width=0.5, center=1.0, lim=5.0, cut=None):
         self.dims = dims
@@ -147,7 +148,9 @@ class Problem:
         x = np.asarray(x, dtype=np.float64)
         if x.ndim == 1:
             x = x[:, None] if self.dims == 1 else x[None, :]
-        v = -0.5 * (((x - self.center) / self.width) ** 2).sum(-1)
+        # not symmetric under a permutation of the coordinates: column i has its own centre and width
+        k = np.arange(x.shape[-1], dtype=np.float64)
+        v = -0.5 * (((x - (self.center + 0.25 * k)) / (self.width * (1.0 + 0.5 * k))) ** 2).sum(-1)
         if self.cut is not None:
             v = np.where(x[:, 0] < self.cut, -np.inf, v)
         return v
@@ -157,7 +160,7 @@ class Problem:
         if x.ndim == 1:
             x = x[:, None] if self.dims == 1 else x[None, :]
         inside = (np.abs(x) < self.lim).all(-1)
-        val = -0.5 * ((x / 3.0) ** 2).sum(-1) - 1.0
+        val = -0.5 * ((x / (3.0 + 0.75 * np.arange(x.shape[-1], dtype=np.float64))) ** 2).sum(-1) - 1.0
         return np.where(inside, val, -np.inf)
 
 
@@ -290,7 +293,13 @@ class LoggingRNG:
         return self._g.random(*a, **k)
 
     def __deepcopy__(self, memo):
-        return self
+        # a deep copy is another generator object (the library deep-copies the keyword arguments of a
+        # finished call for its records): it shares the tracer, so a copy that ends up *driving* a kernel is
+        # seen as "not the generator the user supplied"
+        import copy as _copy
+        new = LoggingRNG(_copy.deepcopy(self._g, memo), self._t, script=self.script)
+        new.is_copy = True
+        return new
 
     def __getattr__(self, name):
         if name.startswith("__") or name == "_g":
@@ -440,8 +449,8 @@ DEFAULT = dict(
 
 def make_flow(cfg, prob, xp):
     from aspire.transforms import IdentityTransform
-    loc = np.full(cfg["dims"], 0.3)
-    sc = np.full(cfg["dims"], 1.5 + 3.5 * float(cfg.get("bad_frac", 0.0)) * 2)
+    loc = 0.3 + 0.2 * np.arange(cfg["dims"], dtype=np.float64)        # per-coordinate location and scale
+    sc = (1.5 + 3.5 * float(cfg.get("bad_frac", 0.0)) * 2) * (1.0 + 0.1 * np.arange(cfg["dims"], dtype=np.float64))
     fl = verifflow_mod.VerifFlow(cfg["dims"], seed=cfg["flow_seed"], loc=loc, scale=sc,
                                  dtype=cfg["dtype"] or "float64")
     return fl
@@ -452,7 +461,7 @@ def make_precond(cfg, xp):
     p = cfg["precond"]
     if p == "none":
         return None
-    params = [f"x_{i}" for i in range(cfg["dims"])]
+    params = list(cfg.get("pnames") or [f"x_{i}" for i in range(cfg["dims"])])
     bounds = {q: [-5.0, 5.0] for q in params}
     kw = dict(parameters=params, prior_bounds=bounds, xp=xp, dtype=cfg["dtype"])
     if p == "default":
@@ -520,7 +529,7 @@ def run_smc(cfg: dict, ids: IdTable | None = None, resume_from=None, role="singl
         init_kw["rng"] = urng
     sampler = Cls(log_likelihood=tr.log_likelihood, log_prior=tr.log_prior, dims=c["dims"],
                   prior_flow=flow, xp=xp, dtype=c["dtype"],
-                  parameters=[f"x_{i}" for i in range(c["dims"])],
+                  parameters=list(c.get("pnames") or [f"x_{i}" for i in range(c["dims"])]),
                   preconditioning_transform=make_precond(c, xp), **init_kw)
     if "rng" not in init_params and hasattr(sampler, "rng"):
         sampler.rng = urng      # no constructor / call parameter: the attribute is the only way in
